@@ -120,6 +120,31 @@ fn drive<Q: ErrorQueue>(rng: &mut Rng, ctx: &mut Ctx, q: &mut Q, cap: Option<usi
                     e = e.extended(*rng.pick(&[&b"limit is 85 \xb0C"[..], b"\xff", b"\xc3\xa9chec", b"a\x80b", b""]));
                     ctx.count("pushes.extended-text-not-ascii-or-empty");
                 }
+                // long device-dependent info (a file name, a dump, a forwarded message): lengths around the 255-character
+                // limit SCPI-99 21.8.1 mentions for the description, around 2^8..2^16, and custom descriptions that long;
+                // the queue stores and returns whatever it was given
+                if rng.chance(1, 15) {
+                    let n = match rng.usize(8) {
+                        0 => 180 + rng.usize(100),
+                        1 => 250 + rng.usize(12),
+                        2 => 500 + rng.usize(30),
+                        3 => 1020 + rng.usize(10),
+                        4 if !ctx.cfg.tiny => 65_530 + rng.usize(12),
+                        _ => 200 + rng.usize(400),
+                    };
+                    // a small pool of distinct long texts per length (interned, so nothing leaks per case)
+                    let fill = b"abcdefghijklmnopqrstuvwxyz0123456789 /.-"[(uid + n) % 40];
+                    let mut t = vec![fill; n];
+                    t[n - 1] = b'#';
+                    t[0] = b'[';
+                    if rng.chance(1, 4) {
+                        e = Error::custom(code, leak_once(&t));
+                        ctx.count("pushes.long-custom-description");
+                    } else {
+                        e = e.extended(leak_once(&t));
+                        ctx.count("pushes.long-extended-text(180..65541 bytes)");
+                    }
+                }
                 // device-dependent info that happens to repeat the description (a wrapped inner error does that)
                 if rng.chance(1, 12) {
                     let own: &'static [u8] = leak_once(e.get_message());
